@@ -29,6 +29,8 @@ pub const EDGES: &[Edge] = &[
     Edge { tag: "UnknownNestedTypeshareList/field", src: "#[typeshare]\npub struct EdgeE { #[typeshare(cobol(readonly))] pub f: u8 }\n" },
     Edge { tag: "UnknownNestedTypeshareList/variant-field", src: "#[typeshare]\n#[serde(tag = \"t\", content = \"c\")]\npub enum EdgeE { A { #[typeshare(fortran(x = \"y\"))] f: u8 } }\n" },
     Edge { tag: "KnownLanguageListOddArgs", src: "#[typeshare]\npub struct EdgeE { #[typeshare(swift(type = 5), kotlin(), typescript(readonly, type = \"x\",), go)] pub f: u8 }\n" },
+    Edge { tag: "KnownLanguageListOddTokens/field", src: "#[typeshare]\npub struct EdgeE { pub a: String, #[typeshare({G}({K}))] pub f: u32, #[typeshare(typescript(readonly))] pub id: u32 }\n" },
+    Edge { tag: "KnownLanguageListOddTokens/variant-field", src: "#[typeshare]\n#[serde(tag = \"t\", content = \"c\")]\npub enum EdgeE { A { #[typeshare({G}({K}), {G}(readonly))] f: u8 }, B }\n" },
     Edge { tag: "NonAsciiIdent/field", src: "#[typeshare]\n#[serde(rename_all = \"{R}\")]\npub struct EdgeE { pub \u{e9}t\u{e9}_chaud: u8, pub \u{df}: u8, pub \u{5b57}\u{6bb5}: u8 }\n" },
     Edge { tag: "NonAsciiIdent/variant", src: "#[typeshare]\n#[serde(rename_all = \"{R}\")]\npub enum EdgeE { \u{c9}t\u{e9}, \u{1c5}emal }\n" },
     Edge { tag: "NonAsciiIdent/tagged-variant", src: "#[typeshare]\n#[serde(tag = \"t\", content = \"c\", rename_all = \"{R}\")]\npub enum EdgeE { \u{c9}t\u{e9}(String), \u{416}\u{443}\u{43a} { f: u8 } }\n" },
@@ -89,6 +91,12 @@ pub const EDGES: &[Edge] = &[
 ];
 
 pub const WRAPPERS: &[&str] = &["Vec", "Option", "HashMap", "Box", "Arc", "Rc", "Cow", "Cell", "RefCell", "Mutex", "RwLock", "Weak", "ArcWeak", "RcWeak"];
+/// `{G}`: the name of a nested field-decorator list; `{K}`: its content, a token run that is not a decorator list
+pub const LIST_NAMES: &[&str] = &["typescript", "kotlin", "swift", "go", "python", "scala"];
+pub const ODD_TOKENS: &[&str] = &[
+    "@JvmField", "= \"x\"", "#[inline]", "(nested)", "readonly;", "5", "\"readonly\"", "readonly readonly", ", readonly", "readonly,, other", "a::b", "-x", "readonly = other",
+    "type = \"x\" readonly", "[x]", "{ x }", "?", "'a", "readonly, = \"x\"", "r#type = \"x\"", "readonly, 5", "x = 1.5", "x = \"a\" = \"b\"",
+];
 pub const RULES9: &[&str] = &["lowercase", "UPPERCASE", "PascalCase", "camelCase", "snake_case", "SCREAMING_SNAKE_CASE", "kebab-case", "SCREAMING-KEBAB-CASE", "bogus"];
 
 #[derive(Clone, Debug, Serialize, Deserialize)]
@@ -103,7 +111,7 @@ pub struct Case {
 
 pub fn edge_src(c: &Case) -> String {
     let e = &EDGES[c.edge % EDGES.len()];
-    e.src.replace("{W}", WRAPPERS[c.w % WRAPPERS.len()]).replace("{R}", RULES9[c.r % RULES9.len()])
+    e.src.replace("{W}", WRAPPERS[c.w % WRAPPERS.len()]).replace("{R}", RULES9[c.r % RULES9.len()]).replace("{K}", ODD_TOKENS[c.w % ODD_TOKENS.len()]).replace("{G}", LIST_NAMES[c.r % LIST_NAMES.len()])
 }
 pub fn case_src(c: &Case) -> String {
     let base = items_src(&c.base);
@@ -158,7 +166,7 @@ impl SubCheck for C07 {
         g.max_items = 3;
         g.ty_depth = 2;
         g.max_fields = 3;
-        (0..EDGES.len(), 0..WRAPPERS.len(), 0..RULES9.len(), gen::program(&g), any::<bool>(), crate::prog::cfg_strategy(), any::<bool>())
+        (0..EDGES.len(), 0..WRAPPERS.len().max(ODD_TOKENS.len()), 0..RULES9.len(), gen::program(&g), any::<bool>(), crate::prog::cfg_strategy(), any::<bool>())
             .prop_map(|(edge, w, r, base, edge_first, mut cfg, empty_pkg)| {
                 if empty_pkg {
                     cfg.scala_package = String::new();
@@ -179,7 +187,7 @@ impl SubCheck for C07 {
         let mut out = vec![];
         for lang in ALL_LANGS {
             if counting {
-                run.nontrivial(hash_of(&(tag, c.w % WRAPPERS.len(), c.r % RULES9.len(), lang, c.edge_first, c.cfg.scala_package.is_empty())));
+                run.nontrivial(hash_of(&(tag, c.w, c.r, lang, c.edge_first, c.cfg.scala_package.is_empty())));
             }
             let _ = ts::take_panic_loc();
             let o = ts::generate(lang, &c.cfg, &[&src], &[]);
@@ -267,7 +275,9 @@ fn cli_family(run: &Run) {
     }
     let mut jobs: Vec<(String, Vec<(String, Vec<u8>)>, Lang, bool, Option<String>, Vec<String>)> = vec![];
     for (ei, e) in EDGES.iter().enumerate() {
-        let variants: Vec<(usize, usize)> = if e.src.contains("{W}") {
+        let variants: Vec<(usize, usize)> = if e.src.contains("{K}") {
+            (0..ODD_TOKENS.len()).flat_map(|w| (0..LIST_NAMES.len()).map(move |r| (w, r))).collect()
+        } else if e.src.contains("{W}") {
             (0..WRAPPERS.len()).map(|w| (w, 0)).collect()
         } else if e.src.contains("{R}") {
             (0..RULES9.len()).map(|r| (0, r)).collect()
@@ -282,7 +292,7 @@ fn cli_family(run: &Run) {
                     if run.tier == Tier::Quick && (w + r + ei + lang as usize + folder as usize) % 3 != 0 && e.src.contains('{') {
                         continue; // quick: a third of the parameterised variants (all plain ones)
                     }
-                    let tag = format!("{}{}{}", e.tag, if e.src.contains("{W}") { format!("[{}]", WRAPPERS[w]) } else { String::new() }, if e.src.contains("{R}") { format!("[{}]", RULES9[r]) } else { String::new() });
+                    let tag = format!("{}{}{}", e.tag, if e.src.contains("{W}") { format!("[{}]", WRAPPERS[w]) } else { String::new() }, if e.src.contains("{R}") { format!("[{}]", RULES9[r]) } else if e.src.contains("{K}") { format!("[{}({})]", LIST_NAMES[r], ODD_TOKENS[w]) } else { String::new() });
                     jobs.push((tag, vec![("edge-crate/src/lib.rs".into(), src.clone().into_bytes())], lang, folder, Some("lib.rs".into()), vec![]));
                 }
             }
@@ -418,7 +428,7 @@ fn cli_family(run: &Run) {
 
 pub fn run(run: &Run) {
     ts::install_panic_hook();
-    run.set_rule("(a) in-process: a supported program of 0-3 items plus one tagged edge feature from a catalogue of syntactically valid Rust at the edge of the supported grammar (empty tuple structs/variants, containers without arguments x 14 container names, unknown nested typeshare(..) lists, non-ASCII / underscore-only identifiers x 9 rename_all rules, bare `use`, consts, DateTime, generic map keys, exotic type syntax, odd attribute forms, odd cfg forms, non-items, empty bodies, odd renames, deep nesting, self-referential aliases, duplicate names, keyword type names, ...), before or after the program, x 6 languages x configurations incl. empty packages; oracle: no unwind out of parse / reconcile / any back end. (b) real binary: every catalogue edge x language x {single file, folder} plus raw-file faults (unparsable, invalid UTF-8, empty, no annotated item, files outside src, BOM/CRLF, dangling symlink with -L, a directory named x.rs, empty package options), odd but loadable typeshare.toml files (empty acronym / mapping / decorator entries, odd prefixes and packages, unknown keys), odd pre-existing content of the output location (empty files, one-byte files, directories in the way; incl. Codable.swift); oracle: terminates within the watchdog with exit 0, or exit != 0 with a diagnostic (naming the offending file where one exists); never a panic message, exit 101, signal or hang. Non-trivial: every case carries an edge tag; distinct by (tag, parameters, language, mode).");
+    run.set_rule("(a) in-process: a supported program of 0-3 items plus one tagged edge feature from a catalogue of syntactically valid Rust at the edge of the supported grammar (empty tuple structs/variants, containers without arguments x 14 container names, unknown nested typeshare(..) lists, field-decorator lists of the six known languages whose content is not a decorator list x 23 token runs (`@JvmField`, `= \"x\"`, `(nested)`, `readonly;`, doubled commas, literals, paths, ...), non-ASCII / underscore-only identifiers x 9 rename_all rules, bare `use`, consts, DateTime, generic map keys, exotic type syntax, odd attribute forms, odd cfg forms, non-items, empty bodies, odd renames, deep nesting, self-referential aliases, duplicate names, keyword type names, ...), before or after the program, x 6 languages x configurations incl. empty packages; oracle: no unwind out of parse / reconcile / any back end. (b) real binary: every catalogue edge x language x {single file, folder} plus raw-file faults (unparsable, invalid UTF-8, empty, no annotated item, files outside src, BOM/CRLF, dangling symlink with -L, a directory named x.rs, empty package options), odd but loadable typeshare.toml files (empty acronym / mapping / decorator entries, odd prefixes and packages, unknown keys), odd pre-existing content of the output location (empty files, one-byte files, directories in the way; incl. Codable.swift); oracle: terminates within the watchdog with exit 0, or exit != 0 with a diagnostic (naming the offending file where one exists); never a panic message, exit 101, signal or hang. Non-trivial: every case carries an edge tag; distinct by (tag, parameters, language, mode).");
     run.assume("a watchdog of 10 s (normal run time ~5 ms) decides 'hang'; panic sites are keyed by file::function, resolved from the reported line, so unrelated line shifts do not rename a finding");
     replay_regress(run, &C07);
     search(run, &C07, run.tier.pick(20_000, 400_000));
